@@ -606,3 +606,87 @@ impl StrExt for &str {
         *self = self.trim_start();
     }
 }
+
+/// Verification-only access to the private token recognisers
+#[cfg(nlnetlabs_roto_verif)]
+impl<'s> Lexer<'s> {
+    fn verif_cf(
+        x: ControlFlow<(Token<'s>, Range<usize>)>,
+    ) -> Option<(Token<'s>, Range<usize>)> {
+        match x {
+            ControlFlow::Break(x) => Some(x),
+            ControlFlow::Continue(()) => None,
+        }
+    }
+
+    pub fn verif_ipv6(&mut self) -> Option<(Token<'s>, Range<usize>)> {
+        Self::verif_cf(self.ipv6())
+    }
+
+    pub fn verif_ipv4(&mut self) -> Option<(Token<'s>, Range<usize>)> {
+        Self::verif_cf(self.ipv4())
+    }
+
+    pub fn verif_two_char_punctuation(
+        &mut self,
+    ) -> Option<(Token<'s>, Range<usize>)> {
+        Self::verif_cf(self.two_char_punctuation())
+    }
+
+    pub fn verif_one_char_punctuation(
+        &mut self,
+    ) -> Option<(Token<'s>, Range<usize>)> {
+        Self::verif_cf(self.one_char_punctuation())
+    }
+
+    pub fn verif_as_number(&mut self) -> Option<(Token<'s>, Range<usize>)> {
+        Self::verif_cf(self.as_number())
+    }
+
+    pub fn verif_hex_number(&mut self) -> Option<(Token<'s>, Range<usize>)> {
+        Self::verif_cf(self.hex_number())
+    }
+
+    pub fn verif_number(&mut self) -> Option<(Token<'s>, Range<usize>)> {
+        Self::verif_cf(self.number())
+    }
+
+    pub fn verif_f_string(&mut self) -> Option<(Token<'s>, Range<usize>)> {
+        Self::verif_cf(self.f_string())
+    }
+
+    pub fn verif_string(&mut self) -> Option<(Token<'s>, Range<usize>)> {
+        Self::verif_cf(self.string())
+    }
+
+    pub fn verif_char(&mut self) -> Option<(Token<'s>, Range<usize>)> {
+        Self::verif_cf(self.char())
+    }
+
+    pub fn verif_keyword_or_ident(
+        &mut self,
+    ) -> Option<(Token<'s>, Range<usize>)> {
+        Self::verif_cf(self.keyword_or_ident())
+    }
+
+    pub fn verif_skip_whitespace(&mut self) {
+        self.skip_whitespace()
+    }
+
+    /// The unconsumed input
+    pub fn verif_rest(&self) -> &'s str {
+        self.input
+    }
+
+    /// Consume `n` bytes (used by harness stubs standing in for a recogniser)
+    pub fn verif_bump(&mut self, n: usize) -> Range<usize> {
+        self.bump(n).1
+    }
+
+    /// The real `next_inner`
+    pub fn verif_next_inner(
+        &mut self,
+    ) -> Option<(Result<Token<'s>, ()>, Range<usize>)> {
+        self.next_inner()
+    }
+}
